@@ -107,6 +107,7 @@ OpOK(T, op) ==
     [] op.op = "moveback" -> Has(T, "pool", op.k) /\ ~Has(T, "agents", op.k)
     [] op.op = "adddel" -> ~Has(T, "agents", op.k) /\ Has(T, "agents", op.k2) /\ op.k # op.k2
     [] op.op = "gendel" -> ~Has(T, "agents", op.k) /\ Has(T, "agents", op.k2) /\ op.k # op.k2
+    [] op.op = "gen2"   -> ~Has(T, "agents", op.k) /\ ~Has(T, "pool", op.k2)
     [] op.op = "addleaf" -> op.k \notin DOMAIN leaves
     [] op.op = "delleaf" -> op.k \in DOMAIN leaves
 
@@ -137,6 +138,10 @@ Struct(S, op) ==
          DelS(PutS(S, "agents", op.k, NewComp("T0", op.x0), New), "agents", op.k2)
     [] op.op = "gendel" ->
          DelS(PutS(S, "agents", op.k, NewComp(op.tpl, op.x0), New), "agents", op.k2)
+    \* one update generating a compartment below each of the two branches
+    [] op.op = "gen2" ->
+         PutS(PutS(S, "agents", op.k, NewComp(op.tpl, op.x0), New),
+              "pool", op.k2, NewComp(op.tpl, op.x0), New)
 
 \* the other processes' updates: +1 to x for every process invoked at the
 \* start of the tick whose compartment is still at the same place
@@ -245,6 +250,7 @@ Ops ==
   \cup {[op |-> "div", k |-> k, d1 |-> a, d2 |-> b] : k \in Names, a \in Names, b \in Names}
   \cup {[op |-> "adddel", k |-> k, x0 |-> 5, k2 |-> j] : k \in Names, j \in Names}
   \cup {[op |-> "gendel", k |-> k, tpl |-> t, x0 |-> 0, k2 |-> j] : k \in Names, t \in Tpls, j \in Names}
+  \cup {[op |-> "gen2", k |-> k, tpl |-> t, x0 |-> 0, k2 |-> j] : k \in Names, t \in Tpls, j \in Names}
   \cup {[op |-> "addleaf", k |-> k, v |-> v] : k \in Names, v \in {0, 7}}
   \cup {[op |-> "delleaf", k |-> k] : k \in Names}
 
@@ -292,7 +298,10 @@ C09_Effects ==
             /\ tree'["agents"][op.k].x = op.x0 /\ origin'[<<"agents", op.k>>] = New)
       /\ op.op \in {"del", "delpath"} => ~Has(tree', "agents", op.k)
       /\ op.op \in {"adddel", "gendel"} => ~Has(tree', "agents", op.k2)
-      /\ op.op \in {"gen", "gendel"} =>
+      /\ op.op = "gen2" =>
+           (Has(tree', "agents", op.k) /\ Has(tree', "pool", op.k2)
+            /\ tree'["pool"][op.k2].tpl = op.tpl /\ origin'[<<"pool", op.k2>>] = New)
+      /\ op.op \in {"gen", "gendel", "gen2"} =>
            (Has(tree', "agents", op.k) /\ tree'["agents"][op.k].tpl = op.tpl
             /\ origin'[<<"agents", op.k>>] = New)
       /\ op.op = "div" =>
